@@ -105,6 +105,7 @@ def run(F, rep, tier):
     import ordeval
     ordeval.decide(F, rep, lua)
     constructors(rep, lua)
+    entries_change_through_the_primitives(rep, lua)
     maybe_shape(F, rep, lua)
     index_base(rep, lua)
     index_bounds(rep, lua)
@@ -805,6 +806,61 @@ def constructors(rep, lua):
         if g and g[0] == "function":
             rets = [luaparse.show(r["es"][0]["f"]) if r["es"] and r["es"][0].get("k") == "Call" else "?" for r in luaparse.walk(g[1]["body"]) if r.get("k") == "Return" and r["es"]]
             rep.ob("CONSTRUCTOR", name, rets == ["__LIST"], "%s returns a __LIST (%s)" % (name, rets))
+
+
+def entries_change_through_the_primitives(rep, lua, rule="KEY-NORM"):
+    """What a dict or a set holds is changed by four functions - dict_update / dict_remove, set_add / set_remove; every other library
+    function that builds or changes one (from_list, map, filter, union ..) does it by calling those, once per element and whatever is
+    there already.  An index store of its own in another function has its own idea of the key and of what happens to an entry that
+    exists (`from_list [("a", 1), ("a", 3)]` keeping the first pair where `update` twice keeps the last)."""
+    PRIM = {"dict_": {"dict_update", "dict_remove"}, "set_": {"set_add", "set_remove"}}
+    n = 0
+    for fam in ("dict_", "set_"):
+        for name, f in sorted(_family(lua, fam).items()):
+            w = [luaparse.show(t) for x in luaparse.walk(f["body"]) if x.get("k") == "Assign" for t in x["targets"] if t.get("k") == "Index"
+                 and not (t["obj"].get("k") == "Name" and t["obj"]["name"] in _plain_locals(f))]
+            if name in PRIM[fam]:
+                n += 1
+                continue
+            n += 1
+            rep.ob(rule, "%s|stores-through-the-primitives" % name, not w,
+                   "%s changes no entry itself" % name if not w else
+                   "%s stores into the table itself (`%s = ..`) instead of going through %s: which key an element gets and what happens "
+                   "to an entry that is there already is then decided twice - a list that names a key twice, or a key the primitive would "
+                   "normalise, gives another dict / set than the same elements added one by one" % (name, w[0], sorted(PRIM[fam])))
+        for prim in sorted(PRIM[fam]):
+            rep.ob(rule, "%s|defined" % prim, prim in _family(lua, fam), "%s is defined" % prim)
+    for name in ("dict_from_list", "set_from_list"):
+        g = lua.globals.get(name)
+        if not (g and g[0] == "function"):
+            rep.ob(rule, "%s|every-element" % name, False, "%s is not defined" % name)
+            continue
+        prim = "dict_update" if name.startswith("dict") else "set_add"
+        loops = [x for x in luaparse.walk(g[1]["body"]) if x.get("k") in ("ForIn", "ForNum", "For", "While")]
+        ok = False
+        for lp in loops:
+            body = lp.get("body") or []
+            if isinstance(body, dict):
+                body = body.get("stmts") or body.get("body") or []
+            body = [st for st in body if isinstance(st, dict)]
+            calls = [st for st in body if any(y.get("k") == "Call" and y["f"].get("k") == "Name" and y["f"]["name"] == prim for y in luaparse.walk(st))
+                     and st.get("k") not in ("If", "While", "ForIn", "ForNum")]
+            ok = ok or bool(calls)
+        rep.ob(rule, "%s|every-element" % name, ok,
+               "%s hands every element to %s, unconditionally" % (name, prim) if ok else
+               "%s does not hand every element of the list to %s on every turn of its loop: an element can be left out (a key that is "
+               "there already) or stored another way" % (name, prim))
+    rep.floor(rule, "dict / set functions examined for stores", n, 10)
+
+
+def _plain_locals(f):
+    """names of locals of f that are bound to a plain table constructor `{}` (scratch tables, not family values)"""
+    out = set()
+    for x in luaparse.walk(f["body"]):
+        if x.get("k") == "Local" and x.get("es") and x["es"][0].get("k") == "Table":
+            for nm in x.get("names", []):
+                out.add(nm if isinstance(nm, str) else nm.get("name"))
+    return out
 
 
 def maybe_shape(F, rep, lua):
